@@ -13,6 +13,9 @@ CLAIMED = {
  'C08': ('M+K', 'symbolic execution of the MIR of eval_binary_op and of the Expr::Binary arm of eval_expr_with_functions into Z3 (bit-vector + IEEE-754 theories, exact oracle) plus Kani/CBMC harnesses on the compiled eval_binary_op; native replay',
          'Solver-decided for ALL i64 and ALL f64 bit patterns (no value bound, no loops): for each of <,<=,>,>= and each operand class (Int/Int, Float/Float, Int/Float, Float/Int) the result of both evaluators equals the mathematical order (NaN: false). Two independent encodings (MIR->Z3 and compiled crate->CBMC) must agree.',
          'Trusted: MIR dump + executor, Kani/CBMC, the exact comparison oracle (range split + round-toward-zero, written twice: z3 and Rust). Assumes the two recursive operand evaluations of the Binary arm can return any Some(Int|Float). Outside: non-numeric operands, engine plumbing around the evaluators.', 'DESIGN.md §4 C08'),
+ 'C45': ('K', 'Kani/CBMC bounded model checking of the real CircuitBreaker over symbolic call histories and a symbolic monotone clock (Instant::now stubbed), reference monitor as assertion; native replay under an interposed virtual clock',
+         'Solver-decided for every history of <= 6 (quick) / <= 8 (thorough) calls chosen from {allow_request, record_success, record_failure} at arbitrary non-decreasing instants, thresholds 1-2 / 1-4, reset timeouts 1-60 s: opens after exactly threshold consecutive failures, rejects until the timeout has passed, admits exactly one half-open probe, closes on success, reopens on failure. Each method holds the mutex for its whole body, so these sequential histories are exactly the interleavings of concurrent senders.',
+         'Only the breaker sentences of C45 are claimed. ResilientSink::send/send_batch and dead-letter-queue completeness (async + file I/O) are outside this technique. Trusted: Kani/CBMC, the clock stub, the monitor in kani/k-runtime/src/c45.rs.', 'DESIGN.md §4 C45'),
 }
 
 NOT_APPLICABLE = {
